@@ -337,7 +337,10 @@ class ConvexPolygon(GeoBody):
             (
                 "ConvexPolygon",
                 round(self._get_point_hash_sum(), SIG_FIGURES - 5),
-                hash(self.plane),
+                # the hash of a Plane ignores the sign of the normal
+                round(self.plane.n[0], SIG_FIGURES),
+                round(self.plane.n[1], SIG_FIGURES),
+                round(self.plane.n[2], SIG_FIGURES),
             )
         )
 
